@@ -344,7 +344,9 @@ func scenarioMachine(c *hlib.RunCtx) *hlib.Violation {
 			s.Probe("config-published-mid-round")
 		}
 		cur := m.cfgs[len(m.cfgs)-1]
-		if m.faultsOn && t.Bool(1, 12) {
+		if (m.faultsOn || m.prop == "C01" || m.prop == "C07") && t.Bool(1, 15) {
+			// the `go` command fails for this uploader (no network, module proxy down)
+			s.Probe("config-download-fails")
 			m.dlFail[tk] = true
 			s.Logf("config", "download fails")
 			return nil, "", fmt.Errorf("simulated config download failure")
